@@ -19,7 +19,11 @@ CONSTS = "CONSTANTS\n MaxDepth = %d\n Broken = %s\n EmitSucc = %s\n"
 BROKEN_CFG = "SPECIFICATION Spec\n" + CONSTS + "INVARIANT %s\nCHECK_DEADLOCK FALSE\n"
 MODEL_CFG = ("SPECIFICATION Spec\n" + CONSTS + "INVARIANT TypeOK\nINVARIANT IsUx\nINVARIANT GridDimsConsistent\nINVARIANT DataFollowsGrid\n"
              "PROPERTY SameGrid\nPROPERTY DeepCopyFresh\nPROPERTY GridsGrow\nPROPERTY MixedGridDimsConsistent\nCHECK_DEADLOCK FALSE\n")
-GEN_CFG = "SPECIFICATION Spec\n" + CONSTS + "INVARIANT Emit\nVIEW GenView\nCHECK_DEADLOCK FALSE\n"
+# one run does both: every transition out of every abstract state (one representative per <<arr, grids, depth>>: the
+# properties constrain arr', grids' and last' only, so the operation that led INTO a state is irrelevant) is checked
+# against the invariants / action properties, and the successor tables are emitted
+GEN_CFG = ("SPECIFICATION Spec\n" + CONSTS + "INVARIANT Emit\nINVARIANT TypeOK\nINVARIANT IsUx\nINVARIANT GridDimsConsistent\nINVARIANT DataFollowsGrid\n"
+           "PROPERTY SameGrid\nPROPERTY DeepCopyFresh\nPROPERTY GridsGrow\nPROPERTY MixedGridDimsConsistent\nVIEW GenView\nCHECK_DEADLOCK FALSE\n")
 SIM_CFG = "SPECIFICATION Spec\n" + CONSTS + "INVARIANT TypeOK\nCHECK_DEADLOCK FALSE\n"
 TRACE_CFG = "SPECIFICATION TSpec\n" + CONSTS % (12, "FALSE", "FALSE") + "INVARIANT Report\nCHECK_DEADLOCK FALSE\n"
 
@@ -366,9 +370,7 @@ def run(ctx):
     depth = 3 if thorough else 2
     T = lambda b: "TRUE" if b else "FALSE"  # noqa: E731
 
-    # 1. the specification on its own: invariants preserved by every operation, every class fires
-    r = ctx.tlc_ok("UxOps", MODEL_CFG % (depth, "FALSE", "FALSE"), what="UxOps: TypeOK, IsUx, GridDimsConsistent, SameGrid, DeepCopyFresh, GridsGrow; programs of depth <= %d" % depth,
-                   workers=8, timeout=1500)
+    # 1. the specification on its own (merged with the generation run below)
     # sanity: a wrong operation (shorter grid dim, same grid) is caught by the invariant
     for inv in ("GridDimsConsistent", "DataFollowsGrid"):
         rb = ctx.tlc("UxOps", BROKEN_CFG % (1, "TRUE", "FALSE", inv), what="UxOps with deliberately broken operations (must violate %s)" % inv, workers=2, count=False)
@@ -376,8 +378,8 @@ def run(ctx):
             raise Machinery("the broken-operation variant did not violate %s (got %s)" % (inv, rb.violated))
 
     # 2. generation: successor tables with expected abstract results, from TLC
-    rg = ctx.tlc_ok("UxOps", GEN_CFG % (depth, "FALSE", "TRUE"), what="generation: successor table of every state within depth %d (one representative per abstract state; -coverage)" % depth,
-                    workers=8, timeout=1500, coverage=True, count=False)
+    rg = ctx.tlc_ok("UxOps", GEN_CFG % (depth, "FALSE", "TRUE"), what="UxOps: TypeOK, IsUx, GridDimsConsistent, DataFollowsGrid, SameGrid, DeepCopyFresh, GridsGrow, MixedGridDimsConsistent on every transition within depth %d + successor tables (-coverage)" % depth,
+                    workers=8, timeout=1500, coverage=True)
     idle = [c for c in CLASSES if rg.coverage.get(c, (0, 0))[1] == 0]
     if idle:
         raise Machinery("vacuous model: actions never fired: %s" % idle)
@@ -421,17 +423,17 @@ def run(ctx):
         for s in starts:
             tries[s] = full_trie(table, s, 2)
         ctx.exhaustive = True
-        # budget: pairs that mix one dataset-level with one array-level operation are sampled 1 in 3 in the quick tier
+        # budget: pairs that mix one dataset-level with one array-level operation are sampled 1 in 5 in the quick tier
         # (all array x array pairs, all dataset x dataset pairs and every single operation stay exhaustive)
-        # and of the pairs containing an operation on a MIXED dataset 1 in 60 (every such single operation is replayed:
+        # and of the pairs containing an operation on a MIXED dataset 1 in 120 (every such single operation is replayed:
         # all mixes x all selection dimensions x all start arrays)
         for s in starts:
             for (op1, _d1, m1), n1 in tries[s].items():
                 for k2 in sorted(n1["kids"]):
                     if m1 or k2[2]:
-                        keep = rng.random() < 1.0 / 60.0
+                        keep = rng.random() < 1.0 / 120.0
                     else:
-                        keep = op1.startswith("ds_") == k2[0].startswith("ds_") or rng.random() < 1.0 / 3.0
+                        keep = op1.startswith("ds_") == k2[0].startswith("ds_") or rng.random() < 1.0 / 5.0
                     if not keep:
                         del n1["kids"][k2]
 
@@ -609,7 +611,7 @@ def run(ctx):
         if "Init" in cl or "IsEvent" in cl or "Enabled" in cl:
             raise Machinery("trace %s rejected by %s: generator and trace specification disagree" % (tid, cl))
         core = [c for c in cl if not c.startswith("Mixed")]   # the Mixed* clauses are TLC's alone: the driver does not predict them
-        if core or tid in pyv:
+        if core:
             if tid not in pyv or pyv[tid][0] != ln or pyv[tid][1] != core:
                 raise Machinery("judge/driver disagreement on %s: TLC %s, driver %s" % (tid, (ln, cl), pyv.get(tid)))
     for tid in pyv:
@@ -625,7 +627,7 @@ def run(ctx):
         for clause in cl:
             # abstract signature, from the specification's side: operation and the kind of grid it was applied on
             sig = {"op": step["op"], "on": t["pre_kinds"][ln - 1]}
-            obs = pyv[tid][2] if tid in pyv else {k: step.get(k) for k in ("cls", "grid", "dims", "g", "comp", "m")}
+            obs = pyv[tid][2] if tid in pyv and pyv[tid][0] == ln else {k: step.get(k) for k in ("cls", "grid", "dims", "g", "comp", "m")}
             if clause.startswith("Mixed"):
                 sig["mix"] = "+".join(step.get("m", []))
                 obs = {"comp": step.get("comp"), "grid": step.get("grid"), "g": step.get("g")}
